@@ -8,13 +8,22 @@ Two op streams (a case starts with `reset`):
   `q x= y= z= r=`; all numbers are (possibly negative) integers counting quarter
   units, small enough that float32 computes zone indices and the `dist > r` test
   exactly, so the model must reproduce the implementation's observation verbatim.
+  `unit id= kind=<none|exit|test|camera|monster|avatar|gone> dead=<0|1>` (float stream: `funit`) tells the scene world
+  about an id; `q`/`qn` with `fp=<id>` run the real `searchers.FindPlayers` owned by that id (model:
+  `findPlayersValidate`).
   `q` may carry `own=<id>`: the searcher's `Validate` rejects that id (the owner, as
   `searchers.FindPlayers` does); without it the searcher accepts everything.
   Observation of a query: `z=<ids> b=<ids> s=<ids>` (sorted, duplicates kept): zoned result /
   result of the `SimpleSpace` that is handed only the adds of ids that are not live (reference of
   the zoned contract) / result of a second `SimpleSpace` that is handed EVERY op verbatim (its own
   contract: an add of a live id moves it).  All three come from the model of the respective Go code.
-* float stream — `reset kind=f …`, `fadd|fmov|fdel|fq` with float32 bit patterns.
+  `qn n=<n> x= y= z= r= [own=]` — a long-lived space: the same query `n` times in a row (1 ≤ n ≤ 200000) on
+  each of the three spaces; observation = that of the first run, then ` n=<n> same=<k>` (k = number of runs
+  whose three results equal the first; the model: `Space.searchRepeat`, always `n` — a query leaves nothing
+  behind, `repeated_query_stable`) and, from the implementation only, ` at=<i> dz= db= ds=`: the first run that
+  differed and what it reported.  The spec monitor judges that run like any other query.  `fqn` likewise in the
+  float stream (` at= dz= ds=`).
+* float stream — `reset kind=f …`, `fadd|fmov|fdel|fq|fqn` with float32 bit patterns.
   Not modelled (the theorems are about exact arithmetic); the observation carries the
   zoned result `z=`, the harness's brute-force scan `b=`, `SimpleSpace`'s result `s=` (same
   float arithmetic as the scan: must equal `b=` exactly), the ids whose distance is within
@@ -57,7 +66,7 @@ def parseGeo (ws : List String) : Option Geo :=
 
 def isFloatOp (ws : List String) : Bool :=
   match ws.head? with
-  | some "fadd" | some "fmov" | some "fdel" | some "fq" => true
+  | some "fadd" | some "fmov" | some "fdel" | some "fq" | some "fqn" | some "funit" => true
   | some "reset" => kv ws "kind" == some "f"
   | _ => false
 
@@ -68,14 +77,31 @@ structure MW where
   zone : Space
   fresh : Simple := {}   -- SimpleSpace handed only adds of ids that are not live
   all : Simple := {}     -- SimpleSpace handed every op verbatim
+  units : World := []    -- the scene world `searchers.FindPlayers` looks candidates up in
 
 abbrev MSt := Option MW
 
-/-- the searcher's `Validate`: reject the owner when the query names one -/
-def validator (ws : List String) : Nat → Bool :=
-  match kvNat ws "own" with
-  | some o => fun id => id != o
-  | none => fun _ => true
+/-- the searcher's `Validate`: `fp=<id>` = the model of `searchers.FindPlayers` owned by that id; `own=<id>` = the
+harness's own searcher that rejects just the owner; neither = accept everything -/
+def validator (ws : List String) (units : World) : Nat → Bool :=
+  match kvNat ws "fp", kvNat ws "own" with
+  | some o, _ => findPlayersValidate units o
+  | none, some o => fun id => id != o
+  | none, none => fun _ => true
+
+/-- `unit id= kind= dead=` -/
+def parseUnit (ws : List String) : Option (Nat × UnitInfo) := do
+  let id ← kvNat ws "id"
+  let dead ← match kv ws "dead" with | some "0" => some false | some "1" => some true | _ => none
+  let u : UnitInfo ← match kv ws "kind" with
+    | some "none" => some { kind := 0, dead } | some "exit" => some { kind := 1, dead } | some "test" => some { kind := 2, dead }
+    | some "camera" => some { kind := 3, dead } | some "monster" => some { kind := 4, dead } | some "avatar" => some { kind := 5, dead }
+    | some "gone" => some { kind := 0, dead, gone := true }
+    | _ => none
+  pure (id, u)
+
+/-- bound on the `n` of `qn` / `fqn` (the harness refuses more) -/
+def maxRepeat : Nat := 200000
 
 def modelStep (st : MSt) (line : String) : MSt × String :=
   let ws := words line
@@ -89,25 +115,41 @@ def modelStep (st : MSt) (line : String) : MSt × String :=
     match st, kvNat ws "id", parsePos ws with
     | some w, some id, some p =>
       let fresh := if (w.zone.find id).isSome then w.fresh else w.fresh.add id p
-      (some { zone := w.zone.add id p, fresh := fresh, all := w.all.add id p }, "ok")
+      (some { w with zone := w.zone.add id p, fresh := fresh, all := w.all.add id p }, "ok")
     | _, _, _ => (st, "bad-op")
   | some "mov" =>
     match st, kvNat ws "id", parsePos ws with
     | some w, some id, some p =>
       match w.zone.mov id p with
-      | some z' => (some { zone := z', fresh := w.fresh.mov id p, all := w.all.mov id p }, "ok")
+      | some z' => (some { w with zone := z', fresh := w.fresh.mov id p, all := w.all.mov id p }, "ok")
       | none => (st, "panic")
     | _, _, _ => (st, "bad-op")
   | some "del" =>
     match st, kvNat ws "id" with
-    | some w, some id => (some { zone := w.zone.del id, fresh := w.fresh.del id, all := w.all.del id }, "ok")
+    | some w, some id => (some { w with zone := w.zone.del id, fresh := w.fresh.del id, all := w.all.del id }, "ok")
     | _, _ => (st, "bad-op")
   | some "q" =>
     match st, parsePos ws, kvInt ws "r" with
     | some w, some p, some r =>
-      let v := validator ws
+      if (kv ws "fp").isSome ∧ ((kv ws "own").isSome ∨ (kvNat ws "fp").isNone) then (st, "bad-op") else
+      let v := validator ws w.units
       (st, s!"z={showIds (w.zone.searchV p r v)} b={showIds (w.fresh.searchV p r v)} s={showIds (w.all.searchV p r v)}")
     | _, _, _ => (st, "bad-op")
+  | some "unit" =>
+    match st, parseUnit ws with
+    | some w, some (id, u) => (some { w with units := w.units.set id u }, "ok")
+    | _, _ => (st, "bad-op")
+  | some "qn" =>
+    match st, parsePos ws, kvInt ws "r", kvNat ws "n" with
+    | some w, some p, some r, some n =>
+      if n < 1 ∨ n > maxRepeat then (st, "bad-op") else
+      if (kv ws "fp").isSome ∧ ((kv ws "own").isSome ∨ (kvNat ws "fp").isNone) then (st, "bad-op") else
+      let v := validator ws w.units
+      let (z, kz) := w.zone.searchRepeat p r v n
+      let (b, kb) := w.fresh.searchRepeat p r v n
+      let (sv, ks) := w.all.searchRepeat p r v n
+      (st, s!"z={showIds z} b={showIds b} s={showIds sv} n={n} same={min kz (min kb ks)}")
+    | _, _, _, _ => (st, "bad-op")
   | _ => (st, "bad-op")
 
 /-! ### mode `accept` -/
@@ -127,6 +169,7 @@ structure SSt where
   refS : Ref := []         -- exact stream: the same under SimpleSpace's contract (add = upsert)
   live : List Nat := []    -- float stream: ids added and not deleted since
   geoOk : Bool := false
+  units : List (Nat × String × Bool) := []  -- both streams: id ↦ (kind, dead) as the `unit` ops said, latest first
 
 def hasDup : List Nat → Bool
   | [] => false
@@ -138,6 +181,52 @@ def symDiff (a b : List Nat) : List Nat :=
 
 def isPanic (obs : String) : Bool := (obs.splitOn "panic").length > 1 || obs.startsWith "<no-observation"
 
+/-- what a query through `FindPlayers` may report, read off the property's side: another unit than the owner that the
+world knows, alive, a player avatar (an id no `unit` op described is a live avatar) — written against the raw op
+history, not against the model's `World` -/
+def specValidator (st : SSt) (ws : List String) : Nat → Bool :=
+  match kvNat ws "fp", kvNat ws "own" with
+  | some o, _ => fun id =>
+    id != o && (match st.units.find? (fun u => u.1 == id) with
+                | some (_, kind, dead) => kind == "avatar" && !dead
+                | none => true)
+  | none, some o => fun id => id != o
+  | none, none => fun _ => true
+
+/-- the property predicate on one exact-stream query result (`none` = holds) -/
+def judgeX (st : SSt) (ws : List String) (op : String) (p : Pos) (r : Int) (z b sv : List Nat) : Option String :=
+  let v := specValidator st ws
+  let want := sortNat ((st.ref.brute p r).filter v)
+  let wantS := sortNat ((st.refS.brute p r).filter v)
+  if hasDup z then some s!"VIOLATION C20/duplicate-report zoned={showIds z} {op}"
+  else if z.any (fun id => !st.ref.has id) then
+    some s!"VIOLATION C20/removed-entity-reported zoned={showIds z} live={showIds (st.ref.map (·.1))} {op}"
+  else if sortNat z != want then
+    some s!"VIOLATION C20/zoned-differs-from-bruteforce zoned={showIds z} within-range={showIds want} {op}"
+  else if sortNat b != want then
+    some s!"VIOLATION C20/simplespace-differs-from-scan simple={showIds b} within-range={showIds want} {op}"
+  else if sortNat sv != wantS then
+    some s!"VIOLATION C20/simplespace-differs-from-scan simple(every-add)={showIds sv} within-range={showIds wantS} {op}"
+  else if (z ++ b ++ sv).any (fun id => !v id) then
+    some s!"VIOLATION C20/rejected-candidate-reported zoned={showIds z} simple={showIds b},{showIds sv} {op}"
+  else none
+
+/-- the property predicate on one float-stream query result (`none` = holds or not judged) -/
+def judgeF (st : SSt) (ws : List String) (op : String) (z b sv e : List Nat) (nf : Nat) : Option String :=
+  let v := specValidator st ws
+  if (z ++ sv).any (fun id => !v id) then
+    some s!"VIOLATION C20/rejected-candidate-reported zoned={showIds z} simple={showIds sv} {op}"
+  else if sortNat sv != sortNat b then
+    some s!"VIOLATION C20/simplespace-differs-from-scan simple={showIds sv} scan={showIds b} {op}"
+  else if hasDup z then some s!"VIOLATION C20/duplicate-report zoned={showIds z} {op}"
+  else if z.any (fun id => !st.live.contains id) then
+    some s!"VIOLATION C20/removed-entity-reported zoned={showIds z} live={showIds st.live} {op}"
+  else if nf == 1 then none
+  else
+    let bad := (symDiff z b).filter fun id => !e.contains id
+    if bad.isEmpty then none
+    else some s!"VIOLATION C20/zoned-differs-from-bruteforce zoned={showIds z} bruteforce={showIds b} unexcused={showIds bad} {op}"
+
 def specStep (st : SSt) (line : String) : SSt × String :=
   match line.splitOn "\t" with
   | [op, obs] =>
@@ -146,6 +235,10 @@ def specStep (st : SSt) (line : String) : SSt × String :=
     if isPanic obs then (st, "VIOLATION C20/index-panic " ++ op)
     else match ws.head? with
     | some "reset" => ({ ref := [], refS := [], live := [], geoOk := obs == "ok" }, "ok")
+    | some "unit" | some "funit" =>
+      match kvNat ws "id", kv ws "kind", kv ws "dead" with
+      | some id, some kind, some dead => if obs == "ok" then ({ st with units := (id, kind, dead == "1") :: st.units }, "ok") else (st, "ok")
+      | _, _, _ => (st, "ok")
     | some "add" =>
       match kvNat ws "id", parsePos ws with
       | some id, some p => ({ st with ref := st.ref.step (.add id p), refS := st.refS.stepS (.add id p) }, "ok")
@@ -161,22 +254,24 @@ def specStep (st : SSt) (line : String) : SSt × String :=
     | some "q" =>
       if !st.geoOk then (st, "ok") else
       match parsePos ws, kvInt ws "r", (kv ows "z").bind parseIds, (kv ows "b").bind parseIds, (kv ows "s").bind parseIds with
+      | some p, some r, some z, some b, some sv => (st, (judgeX st ws op p r z b sv).getD "ok")
+      | _, _, _, _, _ => (st, "VIOLATION C20/unreadable-observation " ++ obs)
+    | some "qn" =>
+      -- a long-lived space: the first of the n runs and the first run that differed from it are both judged
+      if !st.geoOk then (st, "ok") else
+      match parsePos ws, kvInt ws "r", (kv ows "z").bind parseIds, (kv ows "b").bind parseIds, (kv ows "s").bind parseIds with
       | some p, some r, some z, some b, some sv =>
-        let v := validator ws
-        let want := sortNat ((st.ref.brute p r).filter v)
-        let wantS := sortNat ((st.refS.brute p r).filter v)
-        if hasDup z then (st, s!"VIOLATION C20/duplicate-report zoned={showIds z} {op}")
-        else if z.any (fun id => !st.ref.has id) then
-          (st, s!"VIOLATION C20/removed-entity-reported zoned={showIds z} live={showIds (st.ref.map (·.1))} {op}")
-        else if sortNat z != want then
-          (st, s!"VIOLATION C20/zoned-differs-from-bruteforce zoned={showIds z} within-range={showIds want} {op}")
-        else if sortNat b != want then
-          (st, s!"VIOLATION C20/simplespace-differs-from-scan simple={showIds b} within-range={showIds want} {op}")
-        else if sortNat sv != wantS then
-          (st, s!"VIOLATION C20/simplespace-differs-from-scan simple(every-add)={showIds sv} within-range={showIds wantS} {op}")
-        else if (z ++ b ++ sv).any (fun id => !v id) then
-          (st, s!"VIOLATION C20/rejected-candidate-reported zoned={showIds z} simple={showIds b},{showIds sv} {op}")
-        else (st, "ok")
+        match judgeX st ws op p r z b sv with
+        | some bad => (st, bad)
+        | none =>
+          match kv ows "at" with
+          | none => if kv ows "same" == kv ows "n" then (st, "ok") else (st, "VIOLATION C20/unreadable-observation " ++ obs)
+          | some i =>
+            match (kv ows "dz").bind parseIds, (kv ows "db").bind parseIds, (kv ows "ds").bind parseIds with
+            | some z', some b', some sv' =>
+              (st, (judgeX st ws (s!"repetition-no={i} " ++ op) p r z' b' sv').getD
+                ("VIOLATION C20/unreadable-observation a differing repetition that is correct too: " ++ obs))
+            | _, _, _ => (st, "VIOLATION C20/unreadable-observation " ++ obs)
       | _, _, _, _, _ => (st, "VIOLATION C20/unreadable-observation " ++ obs)
     | some "fadd" =>
       match kvNat ws "id" with
@@ -190,20 +285,27 @@ def specStep (st : SSt) (line : String) : SSt × String :=
     | some "fq" =>
       if !st.geoOk then (st, "ok") else
       match (kv ows "z").bind parseIds, (kv ows "b").bind parseIds, (kv ows "s").bind parseIds, (kv ows "e").bind parseIds, kvNat ows "nf" with
+      | some z, some b, some sv, some e, some nf => (st, (judgeF st ws op z b sv e nf).getD (if nf == 1 then "ok non-finite-query" else "ok"))
+      | _, _, _, _, _ => (st, "VIOLATION C20/unreadable-observation " ++ obs)
+    | some "fqn" =>
+      if !st.geoOk then (st, "ok") else
+      match (kv ows "z").bind parseIds, (kv ows "b").bind parseIds, (kv ows "s").bind parseIds, (kv ows "e").bind parseIds, kvNat ows "nf" with
       | some z, some b, some sv, some e, some nf =>
-        let v := validator ws
-        if (z ++ sv).any (fun id => !v id) then
-          (st, s!"VIOLATION C20/rejected-candidate-reported zoned={showIds z} simple={showIds sv} {op}")
-        else if sortNat sv != sortNat b then
-          (st, s!"VIOLATION C20/simplespace-differs-from-scan simple={showIds sv} scan={showIds b} {op}")
-        else if hasDup z then (st, s!"VIOLATION C20/duplicate-report zoned={showIds z} {op}")
-        else if z.any (fun id => !st.live.contains id) then
-          (st, s!"VIOLATION C20/removed-entity-reported zoned={showIds z} live={showIds st.live} {op}")
-        else if nf == 1 then (st, "ok non-finite-query")
-        else
-          let bad := (symDiff z b).filter fun id => !e.contains id
-          if bad.isEmpty then (st, "ok")
-          else (st, s!"VIOLATION C20/zoned-differs-from-bruteforce zoned={showIds z} bruteforce={showIds b} unexcused={showIds bad} {op}")
+        match judgeF st ws op z b sv e nf with
+        | some bad => (st, bad)
+        | none =>
+          match kv ows "at" with
+          | none => if kv ows "same" == kv ows "n" then (st, if nf == 1 then "ok non-finite-query" else "ok")
+                    else (st, "VIOLATION C20/unreadable-observation " ++ obs)
+          | some i =>
+            match (kv ows "dz").bind parseIds, (kv ows "ds").bind parseIds with
+            | some z', some sv' =>
+              -- the scan `b=` and the excused ids `e=` depend on the positions only: they hold for every repetition
+              (st, (judgeF st ws (s!"repetition-no={i} " ++ op) z' b sv' e nf).getD
+                (if nf == 1 then "ok non-finite-query" else
+                 if (symDiff z z').all (fun id => e.contains id) then "ok"
+                 else "VIOLATION C20/unreadable-observation a differing repetition that is correct too: " ++ obs))
+            | _, _ => (st, "VIOLATION C20/unreadable-observation " ++ obs)
       | _, _, _, _, _ => (st, "VIOLATION C20/unreadable-observation " ++ obs)
     | _ => (st, "ok")
   | _ => (st, "bad-line")
